@@ -83,6 +83,42 @@ theorem seconds2hms_ranges (t : Rat) :
 /-- 23:59:30 plus 69.184 s (TT - UTC since 2017) is hour 24: the carry into the next day is kept -/
 example : (Conversions.seconds2hms (86370 + 69184 / 1000)).1 = 24 := by decide +kernel
 
+/-- the Julian day number at 0 h that `getJulianDate` forms from year, month and day -/
+def jd0 (y mo d : Int) : Rat :=
+  ((367 * y : Int) : Rat) - ((7 * ((y : Rat) + ((((mo + 9 : Int) : Rat) / 12).floor : Rat)) * (1 / 4)).floor : Rat)
+    + ((((275 * mo : Int) : Rat) / 9).floor : Rat) + ((d : Rat) + 3442027 / 2)
+
+/-- `getJulianDate` with the hour, minute and second it is handed as numbers: the day number plus the seconds over 86400 - whether or not
+the day fraction exceeds one (its carry branch moves whole days from one summand to the other) -/
+theorem getJulianDateF_eq (y mo d : Int) (hr mi sec : Rat) :
+    Conversions.getJulianDateF y mo d hr mi sec = jd0 y mo d + (sec + mi * 60 + hr * 3600) / 86400 := by
+  unfold Conversions.getJulianDateF jd0 RV.F64.ffloor
+  simp only
+  split <;> ring
+
+/-- Terrestrial Time in Julian centuries is an affine function of the UTC seconds of the day: continuous through the end of the UTC day
+(23:59:30 UTC is 00:00:39 TT of the NEXT day - nothing wraps), with slope 1/(86400 x 36525) -/
+theorem utc2TerrestrialTime_eq (y mo d h mi : Int) (sec dat : Rat) :
+    (Conversions.utc2TerrestrialTime y mo d h mi sec dat).2 =
+      (jd0 y mo d + ((((h * 3600 + mi * 60 : Int) : Rat) + sec + dat + 1132373831306969 / 35184372088832) / 86400) - 2451545) / 36525 := by
+  unfold Conversions.utc2TerrestrialTime
+  simp only [getJulianDateF_eq]
+  have hrec := seconds2hms_recompose ((((h * 3600 + mi * 60 : Int) : Rat) + sec + dat + 1132373831306969 / 35184372088832))
+  set r := Conversions.seconds2hms ((((h * 3600 + mi * 60 : Int) : Rat) + sec + dat + 1132373831306969 / 35184372088832)) with hr
+  have e : r.2.2 + r.2.1 * 60 + r.1 * 3600 = (((h * 3600 + mi * 60 : Int) : Rat) + sec + dat + 1132373831306969 / 35184372088832) := by
+    linarith
+  show (jd0 y mo d + (r.2.2 + r.2.1 * 60 + r.1 * 3600) / 86400 - 2451545) / 36525 = _
+  rw [e]
+
+theorem utc2TerrestrialTime_step (y mo d h mi : Int) (sec dat δ : Rat) :
+    (Conversions.utc2TerrestrialTime y mo d h mi (sec + δ) dat).2 - (Conversions.utc2TerrestrialTime y mo d h mi sec dat).2
+      = δ / (86400 * 36525) := by
+  rw [utc2TerrestrialTime_eq, utc2TerrestrialTime_eq]; ring
+
+/-- what `getJulianDate` is handed near the end of a UTC day is inside its guards: hour 24, minute 0, second 39.184 for 23:59:30 UTC -/
+example : let r := Conversions.seconds2hms (86370 + 37 + 1132373831306969 / 35184372088832)
+    Conversions.getJulianDateF_accepts 2021 6 30 r.1 r.2.1 r.2.2 = true ∧ r.1 = 24 := by decide +kernel
+
 /-- the translated code on concrete dates: 1 March of a leap year is day 61, of a common and of a century year day 60 -/
 example : Conversions.dayOfYear 2024 3 1 0 0 0 = 61 ∧ Conversions.dayOfYear 2023 3 1 0 0 0 = 60 ∧ Conversions.dayOfYear 1900 3 1 0 0 0 = 60
     ∧ Conversions.dayOfYear 2000 2 29 12 0 0 = 60 + 1 / 2 := by decide +kernel
